@@ -268,16 +268,19 @@ def finish (r : Request) (res : List Coin × Int) : Authored :=
 /-- first `targetFee` (tree with fix 6854b62: size without inputs). -/
 def initialFee (r : Request) : Int := feeFor r.feeRate (estimateVSize 0 0 0 0 r.outputs r.changeScriptLen)
 
-/-- Parametrised by the selection loop so that the fixed and the unfixed tree share everything else. -/
+/-- The `if len(selectedUtxos) > 0 { … } else { … }` of `txToOutputs`: what the input source starts with
+(`taken`: handed out unconditionally; `rest`: arranged coins to draw from).  Parametrised by the selection loop so
+that the fixed and the unfixed tree share everything else. -/
+def sourceWith (sel : List Coin → List OutPoint → Except Err (List Coin)) (E : List Coin) (r : Request) :
+    Except Err (List Coin × List Coin) :=
+  if r.selected.isEmpty then .ok ([], arrange r.strategy r.feeRate E)
+  else match sel E r.selected with
+    | .error e => .error e
+    | .ok cs => .ok (cs, [])
+
 def createTxWith (sel : List Coin → List OutPoint → Except Err (List Coin)) (V : View) (r : Request) :
     Except Err Authored :=
-  let E := findEligibleOutputs V r
-  let src : Except Err (List Coin × List Coin) :=
-    if r.selected.isEmpty then .ok ([], arrange r.strategy r.feeRate E)
-    else match sel E r.selected with
-      | .error e => .error e
-      | .ok cs => .ok (cs, [])
-  match src with
+  match sourceWith sel (findEligibleOutputs V r) r with
   | .error e => .error e
   | .ok (taken, rest) =>
     match author r (rest.length + 2) (initialFee r) taken rest with
